@@ -362,10 +362,21 @@ pub fn t_fund(p: P, then: u8) -> impl Fn() {
                 let b = amount("wd", d, false, 1);
                 r.step(Op::Withdraw { who: ALICE, amount: b });
             }
-            _ => {
+            2 => {
                 let m3 = amount("m3", d, false, 5);
                 let f = funds_for(&r, &p, m3, l1);
                 r.step(Op::Open { who: ALICE, side: p.side.clone(), margin: m3, lev: l1, limit: Uint128::zero(), funds: f });
+            }
+            3 => {
+                // opposite side: reduce or reverse depending on the symbolic size
+                let m3 = amount("m3", d, false, 50);
+                r.step(Op::Open { who: ALICE, side: opp(&p.side), margin: m3, lev: l1, limit: Uint128::zero(), funds: None });
+            }
+            _ => {
+                let a = amount("dep", d, false, 2);
+                let f = if p.native { Some(a) } else { None };
+                r.step(Op::Deposit { who: ALICE, amount: a, funds: f });
+                r.step(Op::Liquidate { by: LIQ, trader: BOB, limit: Uint128::zero() });
             }
         }
     }
